@@ -83,7 +83,7 @@ def prepare(parsed, i, j, with_extract=False):
     return ctx, lines
 
 
-GF_BUDGET = {"left": 0}
+GF_BUDGET = {"left": 0, "accepted_left": 10 ** 6}
 
 
 def conclude_cb(ctx, out, force_oracle=False):
@@ -96,7 +96,13 @@ def conclude_cb(ctx, out, force_oracle=False):
     res = {"real": [real_in, real_out], "model": model, "wfw": False, "od": False, "fails": [], "partial": {},
            "cb": True, "extract": ctx["extract"], "model_extract": m[0], "oracle": "not run"}
     accepted = ctx["extract"] is not None
-    if force_oracle or accepted or GF_BUDGET["left"] > 0:
+    if accepted and not force_oracle:
+        # ExtractTrans ACCEPTED a region with a CodeBlock: evaluate (bounded number per run)
+        accepted_run = GF_BUDGET["accepted_left"] > 0
+        GF_BUDGET["accepted_left"] -= 1
+    else:
+        accepted_run = False
+    if force_oracle or accepted_run or (not accepted and GF_BUDGET["left"] > 0):
         if not (force_oracle or accepted):
             GF_BUDGET["left"] -= 1
         lists = ctx["extract"] if accepted else (real_in, real_out)
@@ -215,7 +221,12 @@ def classify(res):
 def run(chk):
     chk.cov["rule"] = ("FAMILY 1: every consecutive-statement region [i,j) of the body of seeded MiniF routines (3-6 top-level "
                        "statements: element writes, read-modify-writes, scalar temporaries, IF with/without ELSE, "
-                       "loops incl. zero-trip/negative step, nesting <=3); non-trivial = region with >=1 write and "
+                       "loops incl. zero-trip/negative step, DO WHILE bounded by a counter (8% of statements), nesting <=3; 30% "
+                       "of the routines also contain expression CodeBlocks (array constructors with implied DO) and "
+                       "statement CodeBlocks (FORALL, PRINT)); for regions with a CodeBlock: real lists vs. the model "
+                       "in which CodeBlocks contribute no access, ExtractTrans accept/refuse vs. RegionData.extractTrans "
+                       "on every such region, property by the gfortran replay oracle (all ACCEPTED ones up to a cap, "
+                       "a sample of the refused ones); non-trivial = region with >=1 write and "
                        ">=2 variables; distinct by (source, region).  FAMILY 2: LFRic invokes of 2-3 synthesised kernels reading / "
                        "writing-first / read-modifying / conditionally writing 1-3 variables (3 scalars, 1 array) of a shared "
                        "module, every call order, wrapped by the real LFRicExtractTrans (collect_non_local_symbols); "
@@ -227,6 +238,10 @@ def run(chk):
         "non-input variable shifted by a cell-dependent amount (+1000 / -777 + 31*var + 3*i + 7*j)",
         "module-variable family: kernels are synthesised from abstract statement lists; the inlined region executes "
         "one representative element of the field update; fields f1/f2 stand for f1_data/f2_data of the real lists",
+        "regions containing CodeBlocks are executed by gfortran (-fcheck=bounds -ftrapv): program up to the region, "
+        "every non-input scalar shifted by 1 and array by 1000, region, print all variables",
+        "DO WHILE semantics: RegionData.rexec with an iteration bound (100000 in the drivers) that no generated loop "
+        "reaches (every generated loop is bounded by `w > 0 .and. w < 4` with w decremented last)",
         "region execution uses the MiniF semantics (lean/PsyVerif/Model/MiniF.lean, validated against gfortran "
         "by harness/minif_selftest.py), not gfortran"]
     chk.cov["trusted_base"] = ["Lean 4.33.0 kernel", "axioms propext/Classical.choice/Quot.sound only (audited)",
@@ -265,6 +280,7 @@ def run(chk):
     outs = driver("C12", lines)
     chk.cov["driver_s"] = round(time.time() - t1, 1)
     GF_BUDGET["left"] = 40 if chk.tier == "thorough" else 8
+    GF_BUDGET["accepted_left"] = 60 if chk.tier == "thorough" else 12
     for ctx in todo:
         res = conclude(ctx, outs[ctx["at"]:ctx["at"] + ctx["n"]])
         src, n_init, i, j = ctx["parsed"].src, ctx["parsed"].n_init, ctx["i"], ctx["j"]
